@@ -510,7 +510,9 @@ pub fn run_c05(ctx: &Ctx, rep: &mut Report) {
         rep.floor("parse:err:LengthIsTooLarge", 10);
     }
     rep.floor("c05:positions_enumerated", 1);
-    rep.floor("c05:pairs_enumerated", 1);
+    if ctx.scale >= 1.0 {
+        rep.floor("c05:pairs_enumerated", 1);
+    }
     rep.floor("c05:utf8_multibyte_strings", 20);
 }
 
